@@ -264,6 +264,10 @@ def run(ctx: Ctx) -> None:
     rule_fid_shape(ctx)
     loops.rule_acc_fresh(ctx, METRIC, "inner_product")
     loops.rule_pivot_choice(ctx, STABF)
+    from ..rules import bitform as _bitform
+    _bitform.rule_helper_shape(ctx)
+    _bitform.rule_g_table(ctx)
+    _bitform.rule_row_sum_form(ctx)
     ctx.floor("cmp.fields", 7)
     ctx.floor("own.rowops", 8)
 
@@ -282,6 +286,8 @@ def _hoist(src: str) -> str:
 
 
 KNOCKOUTS = [
+    Knockout("prim-g-z-branch", "graphiq/backends/stabilizer/functions/linalg.py", sub_once("        return x2 * (1 - 2 * z2)\n", "        return x2 * (2 * z2 - 1)\n"), "prim.g-table", "g_function"),
+    Knockout("prim-rowsum-sign-from-low-bit", "graphiq/backends/stabilizer/functions/linalg.py", sub_once("    r_vector[target_row] = int(phases / 2)\n", "    r_vector[target_row] = phases % 2\n"), "prim.row-sum", "upper bit"),
     Knockout("counter-diagonal-only", METRIC, sub_once("        if np.any(x2_matrix[i]):", "        if x2_matrix[i, i] == 1:"), "fid.shape", "not over the whole row"),
     Knockout("eq-phase-shortcut", SSTATE, sub_once("        tableau1 = canonical_form(self.data.to_stabilizer())", "        if np.array_equal(self.data.stabilizer, other.data.stabilizer):\n            return np.array_equal(self.data.phase, other.data.phase)\n        tableau1 = canonical_form(self.data.to_stabilizer())"), "cmp.fields", "bypasses the canonical comparison"),
     Knockout("canon-eliminate-below-only", STABF, sub_nth("            for row_m in range(n_qubits):\n                if tableau.z_matrix[row_m, j] == 1 and row_m != pivot[0]:", "            for row_m in range(pivot[0], n_qubits):\n                if tableau.z_matrix[row_m, j] == 1 and row_m != pivot[0]:", 0), "canon.reduced", "does not range over all rows"),
